@@ -440,6 +440,17 @@ pub fn check(paths: &Paths, tier: &str) -> i32 {
         }
     }
 
+    if let Ok(path) = std::env::var("VERIF_DUMP_DIGESTS") {
+        // determinism proof support: one line per run with what was chosen and what was observed
+        let mut text = String::new();
+        for (i, r) in results.iter().enumerate() {
+            if let Some(r) = r {
+                text.push_str(&format!("P {i} {:x} {:x}\n", r.plan_digest, r.obs_digest));
+            }
+        }
+        let _ = std::fs::write(format!("{path}.P"), text);
+    }
+
     // ---------------- tier L ----------------
     let l = tierl::run_tier(paths, seed, l_runs, nworkers, selfcheck_runs, deadline_l, &known);
     let l = match l {
